@@ -383,6 +383,18 @@ def main(prop_spec):
                 all_orc += extra
                 break
 
+    # 3c. property-specific thorough extras (e.g. the feature matrix of C19)
+    extra_problems = []
+    if tier == "thorough" and not args.replay and prop_spec.get("thorough_extra"):
+        try:
+            probs, xnotes = prop_spec["thorough_extra"]()
+            notes += xnotes
+            extra_problems = probs
+        except Exception as ex:
+            notes.append("thorough extra failed to run: %s" % ex)
+    for k, pr in enumerate(extra_problems):
+        all_orc.append({"case": -1 - k, "class": "thorough_extra", "what": pr, "desc": None})
+
     # 4. verdict
     violations = []
     known_lines = []
